@@ -15,7 +15,7 @@ LEVEL_TEXT = ('Every entry of every inclination table (l=2..7, all m,p present o
               'polynomial and compared with Kaula eq. 3.62 squared for all I at once; the coefficient table is compared as exact rationals. Finite and complete.')
 LEVEL_NOTE = ('Trusted: ast front-end, interpreter, our transcription of Kaula (1966) eq. 3.62 (self-checked against Kaula Table 1 on every run). '
               'Source literals are rounded decimals (2/3 typed to 25 digits), so coefficients are compared to 1e-11 of the largest coefficient.')
-EXPLANATION = ('R09.1 calc_inclination entries == F_lmp(I)^2 identically in I; omitted (m,p) must be identically zero. R09.2 calc_inclination_off entries == '
+EXPLANATION = ('R09.5 element i of calc_inclination(array) is the scalar entry at obliquity i (two-element arrays [0, I]); R09.1 (on every outcome of a test the table makes on its argument) calc_inclination entries == F_lmp(I)^2 identically in I; omitted (m,p) must be identically zero. R09.2 calc_inclination_off entries == '
                'F_lmp(0)^2, omitted ones zero at I=0. R09.3 universal coefficients == (2-delta_0m)(l-m)!/(l+m)!. R09.4 registries map l to the function of that l.')
 EXPLANATION += ' The registries are read with every top-level statement that binds or mutates them executed, and a who-may-write scan over all modules shows nothing else stores into them.'
 
@@ -97,6 +97,36 @@ def domain_regions(entry, I):
     return out
 
 
+def table_arms(it, m_, f, I):
+    """[(label, table, None)] for the generic outcome first, then [(label, table, I0)] for every outcome that is taken at a single obliquity I0 only"""
+    from ..core.interp import PathExplorer
+
+    def one(fork):
+        it.hooks['fork'] = fork
+        try:
+            return it.call(m_, f, [I])
+        finally:
+            it.hooks.pop('fork', None)
+    generic = []; points = []
+    for tr_, tab in PathExplorer(max_paths=16).run(one):
+        if not isinstance(tab, dict):
+            raise AnalysisError(f'{m_.where(f)}: does not return a dict literal')
+        pins = {}
+        open_arm = True
+        for (c_, _w, _t, o_) in tr_:
+            kind, pn = PathExplorer.arm(c_, o_)
+            if kind == 'equality':
+                open_arm = False
+                if pn is None or set(pn) != {'I'}:
+                    raise AnalysisError(f'{m_.where(f)}: a test on the obliquity that holds on a set of measure zero which cannot be read off ({_t})')
+                pins.update(pn)
+        if open_arm: generic.append((PathExplorer.label(tr_), tab, None))
+        else: points.append((PathExplorer.label(tr_), tab, float(pins['I'])))
+    if len(generic) != 1:
+        raise AnalysisError(f'{m_.where(f)}: {len(generic)} generic outcomes of the tests on the obliquity (expected one)')
+    return generic + points
+
+
 def X_subnodes(n):
     stack = [n]; seen = set()
     while stack:
@@ -108,6 +138,7 @@ def X_subnodes(n):
 
 
 def run(chk):
+    from ..core.interp import PathExplorer
     repo = Repo(chk.repo)
     it = Interp(repo)
     if not K.selfcheck():
@@ -120,9 +151,10 @@ def run(chk):
             f = m_.defs.get(fname)
             if not isinstance(f, ast.FunctionDef):
                 raise AnalysisError(f'{m_.rel()}: {fname} vanished')
-            tab = it.call(m_, f, [I])
-            if not isinstance(tab, dict):
-                raise AnalysisError(f'{m_.where(f)}: does not return a dict literal')
+            # a table may test its argument (a shortcut for zero obliquity): every outcome is a table of its own -- the generic one an identity in I, one taken only at a
+            # single obliquity a set of values at that obliquity
+            arms = table_arms(it, m_, f, I)
+            tab = arms[0][1]
             tables[(l, fname)] = (tab, m_, f)
             chk.note_analysed('functions', f'orderl{l}.{fname}')
             where = m_.where(f)
@@ -150,7 +182,11 @@ def run(chk):
                             continue
                         ok = True; detail = ''
                         try:
-                            for rlab, entry, point in domain_regions(tab[(m, p)], I):
+                            pieces = list(domain_regions(tab[(m, p)], I))
+                            for alab, atab, apoint in arms[1:]:
+                                # an arm taken at one obliquity only: the values it returns there (an omitted entry stands for zero)
+                                pieces.append((alab, atab.get((m, p), X.ZERO), apoint))
+                            for rlab, entry, point in pieces:
                                 if point is not None:
                                     # a single obliquity of the closed domain [0, pi] at which a range reduction changes branch: the value there
                                     gv = X.float_eval(entry, {'I': point, 'pi': math.pi}); rv = ev(ref, point)
@@ -168,6 +204,39 @@ def run(chk):
                             chk.ob('R09.1', inst, False, f'not a trigonometric polynomial of I: {ex}', where); continue
                         chk.ob('R09.1', inst, ok, detail, where, key=f'R09.1|{inst}', method='canonical trig form')
     chk.floor('R09.1', 199); chk.floor('R09.2', 199)
+    # R09.5 arrays: "for all obliquities" includes arrays of them; element i of every entry is the entry at obliquity i whatever the other elements are (a reduction over the
+    # whole array that selects a shortcut makes one element depend on its neighbours).  A two-element array [0, I] against the scalar tables.
+    from ..core.interp import Vec, PathExplorer
+    d5 = X.Decider(seed=chk.seed + 9, k=2)
+    for l in range(2, 8):
+        tab_s, m_, f = tables[(l, 'calc_inclination')]
+        itv = Interp(repo); itv.array_mode = True
+
+        def one(fork, itv=itv, m_=m_, f=f):
+            itv.hooks['fork'] = fork
+            try:
+                return itv.call(m_, f, [Vec([X.ZERO, I])])
+            finally:
+                itv.hooks.pop('fork', None)
+        bad = []
+        for tr_, tv in PathExplorer(max_paths=16).run(one):
+            if any(PathExplorer.arm(c_, o_)[0] == 'equality' for (c_, _w, _t, o_) in tr_):
+                continue                  # the second element is zero as well: an all-zero array, covered by the scalar arms
+            if not isinstance(tv, dict):
+                bad.append('does not return a dictionary for an array'); continue
+            for key, ref_e in tab_s.items():
+                v = tv.get(key, X.ZERO)
+                v = getattr(v, 'v', v)
+                e1 = v[1] if isinstance(v, (Vec, list)) and len(v) == 2 else v
+                e0 = v[0] if isinstance(v, (Vec, list)) and len(v) == 2 else v
+                if not d5.equal(X.lift(e1), X.lift(ref_e)):
+                    bad.append(f'{key}: element 1 (obliquity I) is not the entry at I'); 
+                g0 = X.float_eval(X.lift(e0), {'I': 0.0, 'pi': math.pi}); r0 = X.float_eval(X.lift(ref_e), {'I': 0.0, 'pi': math.pi})
+                if abs(g0 - r0) > 1e-9 * max(1.0, abs(r0)):
+                    bad.append(f'{key}: element 0 (obliquity 0) is {g0.real:.6g}, the entry at 0 is {r0.real:.6g}')
+        chk.ob('R09.5', f'l={l} calc_inclination([0, I]): each element of every entry is the scalar entry at that obliquity', not bad, '; '.join(bad[:3]), m_.where(f), key=f'R09.5|{l}',
+               method='whole-array interpretation (two cells, reductions forked) + GF(p^2) PIT against the scalar table')
+    chk.floor('R09.5', 6)
 
     # R09.3 universal coefficients
     mu = repo.by_path('TidalPy/tides/universal_coeffs.py')
@@ -215,7 +284,15 @@ def run(chk):
             inst = f'inclination_functions_lookup[{flag}][{L}]'
             if not isinstance(fr, FuncRef):
                 chk.ob('R09.4', inst, False, 'not a repo function', mh.where(mh.defs['inclination_functions_lookup'])); continue
-            res = it.call(fr.mod, fr.node, [I])
+            # (the outcome on which every test the tables make on the obliquity takes its generic side: that is the outcome `tables` holds)
+            def one_h(fork, fr=fr):
+                it.hooks['fork'] = fork
+                try: return it.call(fr.mod, fr.node, [I])
+                finally: it.hooks.pop('fork', None)
+            gen_ = [r_ for tr_, r_ in PathExplorer(max_paths=64).run(one_h) if not any(PathExplorer.arm(c_, o_)[0] == 'equality' for (c_, _w, _t, o_) in tr_)]
+            if len(gen_) != 1:
+                raise AnalysisError(f'{fr.mod.where(fr.node)}: {len(gen_)} generic outcomes of the tests on the obliquity (expected one)')
+            res = gen_[0]
             why = ''
             if not isinstance(res, dict) or sorted(res) != list(range(2, L + 1)):
                 why = f'degrees {sorted(res) if isinstance(res, dict) else "?"} != 2..{L}'
